@@ -45,6 +45,21 @@ extern "C" void vh_destroy(TLogger* l)
   vobs(l->id);
 }
 
+// std::vector<std::string>::_M_realloc_insert (growth of the returned name list) is replaced through an IR hook: typed static
+// storage, one slot handed out per call (every push_back comes here), one-character names copied by hand
+union RS { std::string s[NL + 1]; RS() {} ~RS() {} };
+static RS g_rs;
+extern "C" void vh_vs_insert(std::vector<std::string>* v, std::string* pos, std::string const* x)
+{
+  VASSERT(pos == v->_M_impl._M_finish);                                  // push_back: insertion at the end
+  if (v->_M_impl._M_start == nullptr) { v->_M_impl._M_start = g_rs.s; v->_M_impl._M_finish = g_rs.s; }
+  VASSERT(v->_M_impl._M_finish < g_rs.s + NL);
+  VASSERT(x->size() == 1);
+  std::string* d = v->_M_impl._M_finish;
+  d->_M_dataplus._M_p = d->_M_local_buf; d->_M_local_buf[0] = (*x)[0]; d->_M_local_buf[1] = 0; d->_M_string_length = 1;
+  v->_M_impl._M_finish = d + 1; v->_M_impl._M_end_of_storage = d + 1;
+}
+
 // the frontend: logs through a valid logger, and may then remove it (the documented order: a logger is not used after its removal)
 static void frontend_step(LoggerManager& m)
 {
@@ -111,4 +126,6 @@ extern "C" void h_cleanup_loggers()
   for (uint32_t i = 0; i < NL; i++) if (g_pending[i]) quiet = false;
   if (quiet) VASSERT(!invalid_left);
   VWITNESS(g_ndestroyed >= 1 && invalid_left && g_env_left == 0);
+  // detach the static storage of the returned list (nothing to free)
+  removed._M_impl._M_start = nullptr; removed._M_impl._M_finish = nullptr; removed._M_impl._M_end_of_storage = nullptr;
 }
